@@ -17,7 +17,7 @@ PROP = "C10"
 RULE = ("a small lattice die (sides 4-10 units, up to 3 blockages, up to 2 fixed modules), refined by split_refinable_regions "
         "(r in {1.5, 2, 3}, n <= 12) or initial_grid (<= 3x3), with 2-5 movable modules: soft (area + centre), hard with 1-2 "
         "rectangles, flippable hard; total module area <= 60% of the free area; nets of arity 2-4 with weights; threshold in "
-        "{0.5, 0.7, 0.9, 0.95}, alpha in {0, 0.3, 0.7, 1}, max_iter in {1, 1, 1, 2, 3}.  The real glbfloor(...) runs with the "
+        "{0.5, 0.7, 0.9, 0.95, 1.0}, alpha in {0, 0.3, 0.7, 1}, max_iter in {1, 1, 1, 2, 3}.  The real glbfloor(...) runs with the "
         "local APOPT binary.  An exception (solver failure, module without any cell) is 'did not return' and is only counted.  "
         "When it returns: cells pairwise disjoint and inside the die, ratios in [0, 1], per-cell sum <= 1 + 1e-4, module centres "
         "finite and inside the die, fixed modules' rectangles identical and their cells owned >= 1 - 1e-6 with strangers <= 1e-4, "
@@ -77,7 +77,7 @@ def run_glb(c):
     except BaseException as e:
         if isinstance(e, (KeyboardInterrupt, SystemExit, MemoryError)) or type(e).__name__ in ("CaseTimeout",):
             raise
-        return dict(nt=False, cls=["did-not-return", "did-not-return:" + type(e).__name__])
+        return dict(nt=False, cls=["did-not-return", "did-not-return:" + type(e).__name__] + (["over-full-did-not-return"] if c.get("overfull") else []))
     whole = (Fr(0), Fr(0), Fr(W), Fr(H))
     tol = Fr(size) / 10 ** 9
     cells = [(X.of_frame(a.rect), a) for a in alloc.allocations]
@@ -106,6 +106,7 @@ def run_glb(c):
                 -1e-6 * size <= m.center.x <= W + 1e-6 * size and -1e-6 * size <= m.center.y <= H + 1e-6 * size):
             raise Violation("%s: centre of %s is %s, outside the %r x %r die" % (what, m.name, m.center, W, H), "centre-outside")
     moved = False
+    split_fixed = False
     for m in die2.netlist.modules:
         now = [(r.center.x, r.center.y, r.shape.w, r.shape.h) for r in m.rectangles]
         if m.name in fixed0:
@@ -113,12 +114,20 @@ def run_glb(c):
                 raise Violation("%s: fixed module %s changed its rectangles: %s -> %s" % (what, m.name, fixed0[m.name], now), "fixed-moved")
             for r in now:
                 er = X.rect_cs(*r)
-                owned = [(e, a) for e, a in cells if all(abs(x - y) <= tol for x, y in zip(e, er))]
-                if len(owned) != 1:
-                    raise Violation("%s: rectangle %s of fixed module %s is not a cell of the allocation" % (what, r, m.name), "fixed-cell-missing")
-                al = owned[0][1].alloc
-                if al.get(m.name, 0) < 1 - 1e-6 or any(v > 1e-4 for k, v in al.items() if k != m.name):
-                    raise Violation("%s: cell of fixed module %s has allocation %s" % (what, m.name, al), "fixed-cell-shared")
+                # the module's cells: the cells lying on its rectangle (one cell, or - when even fully owned cells were
+                # refined, i.e. threshold 1 - several) tile the rectangle and each is wholly and only the module's
+                atol_c = float(X.area(er)) * 1e-9
+                touching = [(e, a) for e, a in cells if X.inter_area(e, er) > atol_c]
+                if not touching or any(not X.inside(e, er, tol) for e, a in touching) or \
+                        abs(float(sum(X.area(e) for e, a in touching)) - float(X.area(er))) > 1e-6 * float(X.area(er)):
+                    raise Violation("%s: rectangle %s of fixed module %s is not tiled by cells of the allocation (cells on it: %s)" % (
+                        what, r, m.name, [tuple(float(v) for v in e) for e, a in touching]), "fixed-cell-missing")
+                for e, a in touching:
+                    al = a.alloc
+                    if al.get(m.name, 0) < 1 - 1e-6 or any(v > 1e-4 for k, v in al.items() if k != m.name):
+                        raise Violation("%s: cell %s of fixed module %s has allocation %s" % (what, a.rect, m.name, al), "fixed-cell-shared")
+                if len(touching) > 1:
+                    split_fixed = True
         elif m.name in hard0:
             old = hard0[m.name]
             if len(now) != len(old) or any(a[2:] != b[2:] for a, b in zip(old, now)):
@@ -142,6 +151,8 @@ def run_glb(c):
             if any(abs(a[0] - b[0]) > 1e-6 * size or abs(a[1] - b[1]) > 1e-6 * size for a, b in zip(old, now)):
                 moved = True
     cls = ["returned", "max_iter=%d" % c["max_iter"], "refine-" + c["refine"][0]]
+    if split_fixed:
+        cls.append("fixed-cells-refined")  # (threshold 1: even fully owned cells are split between two optimisations)
     kinds = {m["kind"] for m in c["modules"]}
     cls += ["kind-" + k for k in kinds]
     if c["die"]["fixed"]:
@@ -155,9 +166,10 @@ def run_glb(c):
 
 @st.composite
 def case_s(draw):
-    empty = draw(_i(0, 2)) == 0
+    scen = draw(_i(0, 5))  # 0: a die with fixed modules whose cells are refined between two optimisations (threshold 1)
+    empty = scen != 0 and draw(_i(0, 2)) == 0
     dc = draw(D.die_case(max_regions=0 if empty else 3, max_fixed=2, min_side=4, max_side=10, allow_fixed=not empty,
-                         units=["1", "1", "0.5", "2", "0.1", "2.5", "10"]))
+                         force_fixed=scen in (0, 1), units=["1", "1", "0.5", "2", "0.1", "2.5", "10"]))
     dc["regions"] = [r[:4] + ["#"] for r in dc["regions"]]
     W, H = dc["W"], dc["H"]
     used = sum((r[2] - r[0]) * (r[3] - r[1]) for r in dc["regions"]) + sum((r[2] - r[0]) * (r[3] - r[1]) for rl in dc["fixed"] for r in rl)
@@ -167,13 +179,14 @@ def case_s(draw):
     else:
         ref = ["split", draw(st.sampled_from([1.5, 2, 3])), draw(st.sampled_from([1, 2, 4, 6, 9, 12]))]
     n = draw(_i(2, 5))
-    budget = max(2, int(free * 0.6))
+    # scenario 5: more module area than free area (the optimiser cannot succeed; whatever glbfloor then RETURNS is judged like any result)
+    budget = max(2, int(free * 0.6)) if scen != 5 else max(4, int(free * draw(st.sampled_from([1.1, 1.3, 2.0]))))
     mods = []
     for i in range(n):
-        kind = draw(st.sampled_from(["soft", "soft", "soft", "hard", "flip"]))
+        kind = draw(st.sampled_from(["soft", "soft", "soft", "hard", "flip"])) if scen != 5 else "soft"
         share = max(1, budget // n)
         if kind == "soft":
-            mods.append(dict(name="M%d" % i, kind="soft", area=draw(_i(1, share)), c=[draw(_i(1, 2 * W - 1)), draw(_i(1, 2 * H - 1))]))
+            mods.append(dict(name="M%d" % i, kind="soft", area=draw(_i(1, share)) if scen != 5 else share, c=[draw(_i(1, 2 * W - 1)), draw(_i(1, 2 * H - 1))]))
         else:
             w = draw(_i(1, max(1, min(3, W // 3))))
             h = draw(_i(1, max(1, min(3, H // 3))))
@@ -195,8 +208,10 @@ def case_s(draw):
         mem = [names[draw(_i(0, len(names) - 1))] for _ in range(ar)]
         if len(set(mem)) >= 2:
             nets.append(dict(m=mem, w=draw(st.sampled_from([None, 1, 2, 0.5]))))
-    return dict(die=dc, refine=ref, modules=mods, nets=nets, threshold=draw(st.sampled_from([0.5, 0.7, 0.9, 0.95])),
-                alpha=draw(st.sampled_from([0, 0.3, 0.7, 1])), max_iter=draw(st.sampled_from([1, 1, 1, 2, 3])))
+    thr, mit = draw(st.sampled_from([0.5, 0.7, 0.9, 0.95, 1.0])), draw(st.sampled_from([1, 1, 1, 2, 3]))
+    if scen == 0:
+        thr, mit = 1.0, max(mit, 2)
+    return dict(die=dc, refine=ref, modules=mods, nets=nets, overfull=scen == 5, threshold=thr, alpha=draw(st.sampled_from([0, 0.3, 0.7, 1])), max_iter=mit)
 
 
 class _FakeModel:
